@@ -538,7 +538,7 @@ func (u *Unit) stringOfBytes(st *State, b Term, t types.Type) Term {
 	r := u.fresh(st, "str", SStr, t)
 	arr := sel(h, app("sbase", SInt, b), arraySort(SInt, SInt))
 	st.assume(eq(app("slen", SInt, r), app("slen_", SInt, b)))
-	st.assume(mk(fmt.Sprintf("(forall ((i Int)) (! (=> (and (<= 0 i) (< i (slen %s))) (= (sat %s i) (select %s (+ (soff %s) i)))) :pattern ((sat %s i))))", r.S, r.S, arr.S, b.S, r.S), SBool))
+	st.assume(mk(fmt.Sprintf("(forall ((i Int)) (! (=> (and (<= 0 i) (< i (slen %s))) (= (sat %s i) (select %s (sidx %s i)))) :pattern ((sat %s i))))", r.S, r.S, arr.S, b.S, r.S), SBool))
 	return r
 }
 
@@ -682,27 +682,25 @@ func (u *Unit) execFieldAddr(st *State, x *ssa.FieldAddr) {
 func (u *Unit) execIndexAddr(st *State, x *ssa.IndexAddr) {
 	v := u.val(st, x.X)
 	i := u.val(st, x.Index)
-	var base, off, n Term
+	var base, n, idx Term
 	var et types.Type
 	switch xt := x.X.Type().Underlying().(type) {
 	case *types.Slice:
 		et = xt.Elem()
-		base, off, n = app("sbase", SInt, v), app("soff", SInt, v), app("slen_", SInt, v)
+		base, n = app("sbase", SInt, v), app("slen_", SInt, v)
+		idx = app("sidx", SInt, v, i)
 	case *types.Pointer:
 		at := xt.Elem().Underlying().(*types.Array)
 		et = at.Elem()
 		u.nilCheck(st, v, x.Pos(), "index of nil array pointer")
-		base, off, n = v, intLit(0), intLit(at.Len())
+		base, n = v, intLit(at.Len())
+		idx = i
 	default:
 		panic(unsupported("indexaddr of " + x.X.Type().String()))
 	}
 	goal := and(le(intLit(0), i), lt(i, n))
 	u.oblige(st, "safety", x.Pos(), goal, "index out of range", u.safetyTags())
 	st.assume(goal)
-	idx := add(off, i)
-	if off.S == "0" {
-		idx = i
-	}
 	if _, ok := isStruct(et); ok {
 		t := u.elemRef(et, base, idx)
 		t.T = x.Type()
